@@ -17,7 +17,11 @@ THEOREMS = ["merger_eq_spec", "mergerFrom_spec", "merge_buffer_independent", "me
             # the refusal clause (Props/C07Compat.lean)
             "compat_accepts_iff", "compat_accepts_same", "compat_same_accepts", "merge_refuses", "fastpath_sound",
             "uniform_table_unique", "uniformChrom_unique", "sorted_ext", "rows_inj", "compat_ok_iff", "legacy_fastpath_unsound",
-            "fixed_group_is_tiling", "merge_refuses_empty"]
+            "fixed_group_is_tiling", "merge_refuses_empty",
+            # the dtype clause (Props/C07Dtype.lean)
+            "merge_exact_or_error", "mergeTyped_exact", "mergeTyped_refuses_iff", "mergerTyped_eq", "mergeTyped_buffer_independent",
+            "mergeTyped_comm", "checkedWrite_none_iff_clip", "clip_eq_iff_fits", "commonInt_holds", "fitsInt_widen",
+            "fitsInt_unsigned_to_signed", "fitsInt_gap", "fitsFloat_iff", "wrap64_eq_iff", "aggAsBuilt_exact", "rnd_of_fits"]
 LEVELS = {"merge": "top", "refuses": "top", "compat": "top", "limits": "top", "breakpoints": "unit", "agg": "top", "mixed_dtypes": "top", "cli_merge": "top"}
 DESCRIBE = {
     "merge": "cooler.merge_coolers(out, inputs, mergebuf) for EVERY mergebuf 1..sum(nnz)+1 and every order of the inputs, plus a "
@@ -30,7 +34,17 @@ DESCRIBE = {
               "chromosomes, both storage modes; real cooler.merge_coolers (and `cooler merge` for a slice) merged/refused vs Lean "
               "`mergeCompat` (= `allSame`: same storage mode, names and bin table as the first input — theorem compat_accepts_iff; the "
               "bin-size shortcut is sound by fastpath_sound over C20.getBinsize_truthful); a merged output carries the inputs' bin table",
-    "limits": "values near the limits of the value dtype: the stored value equals the exact aggregate or the call errs",
+    "limits": "values near the limits of the value dtype, for EVERY pair (dtype the inputs' columns are stored in, dtype of the output column): "
+              "inputs stored as int8..int64, uint8..uint64, float32, float64 (all of one dtype or mixed), output requested through `dtypes=` "
+              "(as a numpy dtype, a string or a scalar type) / `--field count:dtype=...` as any of those ten types or omitted; aggregates "
+              "sum, max, min, first, last landing ON and just BEYOND every boundary of every integer type (-2^63-1 .. 2^64: between 2^31 "
+              "and 2^32, negative into unsigned, beyond 2^63 and 2^64 ...), with 1..3 inputs, several merge buffers, library and `cooler "
+              "merge`.  Oracle: Lean `mergeTyped` (= `C01.checkedWrite` of the exact aggregate `mergeSpecAgg`; theorems "
+              "merge_exact_or_error, mergeTyped_refuses_iff, mergerTyped_eq): the merged column holds exactly the aggregate, or the merge "
+              "is refused — and it may be refused only when Lean says some exact aggregate does not fit the output type (omitted: the "
+              "common type of the inputs, `common`, commonInt_holds).  Float columns: demanded only where the integer model answers "
+              "(Lean `verdict`: every value and partial sum exactly held by the significands involved); rounding by a requested float "
+              "type is not judged.  The recorded total is compared where every accumulator holds it (`totalSafe`)",
     "breakpoints": "contract `validBreakpoints` evaluated by Lean on the real merge_breakpoints(indexes, bufsize) output",
     "mixed_dtypes": "inputs whose count columns have DIFFERENT dtypes (int32/int64/float32/float64, values multiples of 1/4) in every order: "
                     "the stored values must be the exact per-pixel sums (Lean `mergeSpec` on the values scaled by 4), never truncated",
@@ -44,12 +58,17 @@ RULE = ("k = 1..3 (quick) / 1..4 (thorough) inputs over a common table of n<=5 b
         "universe: every ordered pair (and triples with the odd one at each position) of valid segmentations with equal chromosome "
         "sizes (1 chromosome of length <=5, 2 chromosomes of total length <=5; thorough <=6 / <=7), every ordered pair of ALL valid "
         "segmentations of <=2 chromosomes of length <=3 (thorough <=4), every name variant and storage-mode mix of those; plus "
-        "seeded larger tables")
+        "seeded larger tables.  Check `limits` covers EVERY (stored dtype, output dtype or omitted) pair of the ten value dtypes: per "
+        "pair one merge whose shared and unshared pixels sit on every reachable in-range boundary value, and merges with one "
+        "aggregate just beyond the output type's upper and lower limit and on a farther boundary (thorough: that for every "
+        "aggregate through both entry points, and five more farther boundaries for sum)")
 # `compat` (and mergebuf in `merge`) enumerate exhaustively; the merge inputs themselves are sampled
 EXHAUSTIVE = {"quick": True, "thorough": True}
 TRUSTED = ["pandas concat/groupby(sort=True).aggregate and h5py dtype conversion are primitives",
            "merge partition (merge_breakpoints) is a free unit checked by contract"]
-ASSUMPTIONS = ["integer value columns; aggregation functions are modelled as List Int -> Int applied to a pixel's values in input order"]
+ASSUMPTIONS = ["integer value columns; aggregation functions are modelled as List Int -> Int applied to a pixel's values in input order",
+               "float columns hold integer values; a merge involving a float column is judged only where floating-point aggregation is exact "
+               "(Lean `verdict`); an aggregate that a REQUESTED float type does not hold exactly may be rounded (not judged)"]
 CHUNK = 1
 
 
@@ -129,27 +148,94 @@ def _refuses(case):
                 os.unlink(p)
 
 
+# the value dtypes of the domain, as the Lean model names them (`MergeDtype.VType`)
+_INTS = ["int8", "int16", "int32", "int64", "uint8", "uint16", "uint32", "uint64"]
+_FLOATS = ["float32", "float64"]
+_VT = {**{t: {"signed": not t.startswith("u"), "bits": int(t.lstrip("uint"))} for t in _INTS}, "float32": {"mant": 24}, "float64": {"mant": 53}}
+
+
+def _dtype_arg(name, spelling):
+    """the same dtype in the spellings `dtypes=` accepts"""
+    return {"dtype": np.dtype(name), "str": name, "type": getattr(np, name)}[spelling]
+
+
+def _exact_int(v):
+    """a stored number as an exact Python integer (a float that is not an integer stays a float)"""
+    if isinstance(v, (np.integer, int)):
+        return int(v)
+    f = float(v)
+    return int(f) if f.is_integer() else f
+
+
+def _limits_form(case):
+    if "values" in case:
+        # the earlier form of a case: k inputs of one dtype holding `values` at one pixel and 1 at another, `dtypes` omitted
+        return {"n": 3, "inputs": [[[0, 1, v], [1, 1, 1]] for v in case["values"]], "in_dtypes": [case["dtype"]] * len(case["values"]),
+                "out": None, "agg": "sum", "via": "api", "mergebuf": 4}
+    return case
+
+
 def _limits(case):
+    from click.testing import CliRunner
+    from cooler.cli import cli
+    case = _limits_form(case)
+    n, ins, out_dt, agg, mb = case["n"], case["in_dtypes"], case["out"], case["agg"], case["mergebuf"]
+    m = drv().ask("C07.merge_typed", inputs=case["inputs"], n=n, mergebuf=mb, agg=agg, in_types=[_VT[t] for t in ins],
+                  out=None if out_dt is None else _VT[out_dt])
+    assert m["inputs_ok"], f"the generator produced a value its input column cannot hold: {case}"
+    assert m["stream_agrees"] and m["model_partition_valid"], "theorem mergerTyped_eq contradicted"
+    verdict = m["verdict"]
+    assert verdict == "unconstrained" or (m["stored"] is None) == (verdict == "refuse"), "theorem mergeTyped_refuses_iff contradicted"
+    assert m["stored"] is None or m["stored"] == m["spec"], "theorem mergeTyped_exact contradicted"
     d = gen.tmpdir()
     tag = os.getpid()
-    bins = gen.layout_bins([3])
+    bins = gen.layout_bins([n])
     paths = []
     out = os.path.join(d, f"l-{tag}-out.cool")
     try:
-        for k, v in enumerate(case["values"]):
+        for k, (px, dt) in enumerate(zip(case["inputs"], ins)):
             p = os.path.join(d, f"l-{tag}-{k}.cool")
-            gen.write_cooler(p, bins, [[0, 1, v], [1, 1, 1]], dtype=case["dtype"], dtypes={"count": case["dtype"]})
+            gen.write_cooler(p, bins, px, dtype=dt, dtypes={"count": dt})
             paths.append(p)
-        r = guarded(cooler.merge_coolers, out, paths, mergebuf=4)
-        exact = sum(case["values"])
-        if r[0] == "ok":
-            t = cooler.Cooler(out).pixels()[:]
-            got = int(t["count"][0])
-            if got != exact or int(cooler.Cooler(out).info["sum"]) != exact + len(paths):
-                return {"mismatch": True, "stored": got, "exact": exact, "sum_attr": int(cooler.Cooler(out).info["sum"]),
-                        "note": "a stored value is silently different from the exact aggregate"}
-            return {"stats": {"fits": 1}}
-        return {"stats": {"errs": 1}}
+        if case["via"] == "cli":
+            props = ([f"dtype={out_dt}"] if out_dt else []) + ([f"agg={agg}"] if agg != "sum" or case.get("agg_explicit") else [])
+            field = ["--field", "count" + (":" + ",".join(props) if props else "")] if props or case.get("field_explicit") else []
+            argv = ["merge", "-c", str(mb)] + field
+            r = CliRunner().invoke(cli, argv + [out] + paths)
+            merged, err, how = r.exit_code == 0, (None if r.exit_code == 0 else repr(r.exception)[:200]), "cooler " + " ".join(argv)
+        else:
+            kw = {}
+            if out_dt:
+                kw["dtypes"] = {"count": _dtype_arg(out_dt, case.get("spelling", "dtype"))}
+            if agg != "sum" or case.get("agg_explicit"):
+                kw["agg"] = {"count": agg}
+            r = guarded(cooler.merge_coolers, out, paths, mergebuf=mb, **kw)
+            merged, err, how = r[0] == "ok", (None if r[0] == "ok" else r[1]), f"merge_coolers(mergebuf={mb}, " + ", ".join(f"{a}={b!r}" for a, b in kw.items()) + ")"
+        what = {"call": how, "input_dtypes": ins, "output_dtype": out_dt or "omitted", "model_output_type": m["out"], "model_verdict": verdict}
+        if not merged:
+            if verdict == "exact":
+                return dict(what, mismatch=True, impl=f"refused ({err})", impl_outcome=None, exact=m["spec"],
+                            note="the merge was refused although every exact aggregate fits the output type")
+            return {"stats": {"refused" if verdict == "refuse" else "unconstrained": 1}}
+        c = impl(cooler.Cooler, out)
+        t = impl(lambda: c.pixels()[:])
+        got = [[int(a), int(b), _exact_int(v)] for a, b, v in zip(t["bin1_id"], t["bin2_id"], t["count"])]
+        if verdict == "unconstrained":
+            return {"stats": {"unconstrained": 1}}
+        if got != m["spec"]:
+            return dict(what, mismatch=True, stored_dtype=str(t["count"].dtype), impl=got, impl_outcome=got, exact=m["spec"],
+                        an_unchecked_write_would_store=m["unchecked"],
+                        note="a stored value is silently different from the exact aggregate" +
+                             ("" if verdict == "exact" else " (no exact aggregate fits the output type: the merge had to be refused)"))
+        info = c.info
+        if int(info["nnz"]) != len(m["spec"]):
+            return dict(what, mismatch=True, what_differs="nnz attribute", impl=int(info["nnz"]), model=len(m["spec"]))
+        if m["total_safe"]:
+            s_ = info["sum"]
+            if not (float(s_).is_integer() and int(s_) == m["total"]):
+                return dict(what, mismatch=True, what_differs="sum attribute", impl=_exact_int(s_), model=m["total"], stored=got,
+                            note="the recorded total is not the sum of the input totals")
+        return {"stats": {"exact": 1}}
     finally:
         for p in paths + [out]:
             if os.path.exists(p):
@@ -570,6 +656,157 @@ def _compat_cases(tier, rng):
     yield from _chunks("cli", v, [[i, j] for i in range(6) for j in range(6) if thorough or (i + j) % 2 == 0 or i == 0], cli=True)
 
 
+# ---------------------------------------------------------------------------------------------
+# the dtype clause: values near the limits of the value dtype, for every (stored dtype, output dtype) pair
+# ---------------------------------------------------------------------------------------------
+
+def _irange(t):
+    b = _VT[t]["bits"]
+    return (-(2 ** (b - 1)), 2 ** (b - 1) - 1) if _VT[t]["signed"] else (0, 2 ** b - 1)
+
+
+def _held(t, v):
+    """GENERATOR-side only (the oracle is Lean `VType.holds`, and `inputs_ok` re-checks every input value): can a column of
+    dtype `t` hold the integer `v` unchanged"""
+    if t in _INTS:
+        lo, hi = _irange(t)
+        return lo <= v <= hi
+    a, mant = abs(v), _VT[t]["mant"]
+    return a.bit_length() <= mant or a % (1 << (a.bit_length() - mant)) == 0
+
+
+# every boundary of every integer type, from both sides, and the first integers the float types do not hold
+_LANDMARKS = sorted({x for t in _INTS for lo, hi in [_irange(t)] for x in (lo - 1, lo, hi, hi + 1)} |
+                    {1, -2, 2 ** 24, 2 ** 24 + 1, 2 ** 53, 2 ** 53 + 1})
+_AGGS = ["sum", "max", "min", "first", "last"]
+
+
+def _candidates(rng, t, target):
+    c = [target, target // 2, target - target // 2, target // 3, 0, 1, -1, rng.choice(_LANDMARKS), rng.randint(-300, 300)]
+    if t in _INTS:
+        lo, hi = _irange(t)
+        c += [lo, hi, hi - rng.randint(0, 9), lo + rng.randint(0, 9), target - hi, target - lo]
+    else:
+        c += [2 ** 62, -(2 ** 62), 2 ** (max(abs(target), 1).bit_length() - 1)]
+    return [v for v in c if _held(t, v)]
+
+
+def _decompose(rng, target, dts, agg):
+    """values, one per input and each held by that input's dtype, whose `agg` in input order is `target`; None if not found"""
+    k = len(dts)
+    fl = [t for t in dts if t in _FLOATS]
+    for _ in range(40):
+        if agg == "sum":
+            vals = [rng.choice(_candidates(rng, t, target)) for t in dts[:-1]]
+            vals.append(target - sum(vals))
+        else:
+            pos = {"first": 0, "last": k - 1}.get(agg, rng.randrange(k))
+            vals = []
+            for a, t in enumerate(dts):
+                if a == pos:
+                    vals.append(target)
+                    continue
+                c = _candidates(rng, t, target)
+                if agg == "max":
+                    c = [v for v in c if v <= target]
+                if agg == "min":
+                    c = [v for v in c if v >= target]
+                if not c:
+                    break
+                vals.append(rng.choice(c))
+            if len(vals) < k:
+                continue
+        if not all(_held(t, v) for t, v in zip(dts, vals)):
+            continue
+        if fl and agg == "sum":
+            # with a float column among the inputs only an exact floating-point aggregation is judged: prefer those
+            narrow = min(fl, key=lambda t: _VT[t]["mant"])
+            acc, ok = 0, True
+            for v in vals:
+                acc += v
+                ok = ok and _held(narrow, acc) and _held(narrow, v)
+            if not ok:
+                continue
+        return vals
+    return None
+
+
+def _limit_case(rng, n, dts, out, agg, via, targets, singles, extra):
+    """one merge: a shared pixel per target (its aggregate over the inputs = the target), pixels held by one input only"""
+    cells = [(i, j) for i in range(n) for j in range(i, n)]
+    rng.shuffle(cells)
+    inputs = [[] for _ in dts]
+    used = []
+    for tg in targets:
+        vals = _decompose(rng, tg, dts, agg)
+        if vals is None or not cells:
+            continue
+        i, j = cells.pop()
+        used.append(tg)
+        for a, v in enumerate(vals):
+            inputs[a].append([i, j, v])
+    for a, v in singles:
+        if cells and _held(dts[a], v):
+            i, j = cells.pop()
+            used.append(v)
+            inputs[a].append([i, j, v])
+    if not used:
+        return None
+    c = {"n": n, "inputs": [sorted(px) for px in inputs], "in_dtypes": list(dts), "out": out, "agg": agg, "via": via,
+         "mergebuf": rng.choice([1, 2, 3, 5, 100])}
+    c.update(extra)
+    return c
+
+
+def _limit_cases(tier, rng):
+    thorough = tier == "thorough"
+    for ind in _INTS + _FLOATS:
+        for out in [None] + _INTS + _FLOATS:
+            variants = [(a, v) for a in _AGGS for v in ("api", "cli")] if thorough else [None]
+            for var in variants:
+                # slots of one pair: the merge that must be stored, then merges with one aggregate just beyond the upper limit of the
+                # output type, just beyond the lower one, and on a farther boundary (thorough: on every boundary outside)
+                for slot in ["inside", "above", "below", "far"] + (["far"] * 5 if thorough and var[0] == "sum" else []):
+                    agg, via = var if var else (rng.choice(["sum", "sum", "sum"] + _AGGS), "cli" if rng.random() < 0.3 else "api")
+                    k = rng.randint(1, 3)
+                    # the inputs: all of the pair's stored dtype, or (one time in three) one of them of another dtype
+                    dts = [ind] * k
+                    if k >= 2 and rng.random() < 0.34:
+                        dts[rng.randrange(1, k)] = rng.choice(_INTS + _FLOATS)
+                    # what the output column can hold — for the generator's sorting of the boundary values into "to be stored"
+                    # and "to be refused" only (the verdict is Lean's, on Lean's `common` type)
+                    res = out or str(np.result_type(*[np.dtype(t) for t in dts]))
+                    inside = [x for x in _LANDMARKS if _held(res, x)]
+                    outside = [x for x in _LANDMARKS if not _held(res, x)]
+                    rng.shuffle(inside)
+                    extra = {"spelling": rng.choice(["dtype", "str", "type"]), "agg_explicit": rng.random() < 0.5,
+                             "field_explicit": rng.random() < 0.3}
+                    if slot == "inside":
+                        ends = list(_irange(res)) if res in _INTS else []
+                        singles = [(rng.randrange(k), x) for x in ends + inside[:2]]
+                        c = _limit_case(rng, 7, dts, out, agg, via, ends + [x for x in inside if x not in ends][:10 if thorough else 6],
+                                        singles, extra)
+                    else:
+                        if res in _FLOATS:
+                            break
+                        lo, hi = _irange(res)
+                        if slot == "far":
+                            far = [x for x in outside if x not in (lo - 1, hi + 1)]
+                            if not far:
+                                break
+                            x = rng.choice(far)
+                        else:
+                            x = hi + 1 if slot == "above" else lo - 1
+                        # the aggregate beyond the output type sits next to pixels that fit; it is a shared pixel or (if an input
+                        # can hold it) a pixel of one input only
+                        if rng.random() < 0.25 and _held(dts[0], x):
+                            c = _limit_case(rng, 4, dts, out, agg, via, inside[:2], [(0, x)], extra)
+                        else:
+                            c = _limit_case(rng, 4, dts, out, agg, via, inside[:2] + [x], [], extra)
+                    if c:
+                        yield "limits", c
+
+
 CHECKS = {"mixed_dtypes": _mixed_dtypes, "cli_merge": _cli_merge, "merge": _merge, "refuses": _refuses, "limits": _limits, "breakpoints": _breakpoints, "agg": _agg,
           "compat": _compat}
 
@@ -588,6 +825,32 @@ def distribution(name, case):
         yield f"merge.k={len(case['inputs'])}.{'symm' if case['symm'] else 'square'}"
     if name == "compat":
         yield f"compat.family={case.get('family')}"
+    if name == "limits" and "in_dtypes" in case:
+        yield f"limits.stored={case['in_dtypes'][0]}"
+        yield f"limits.output={case['out'] or 'omitted'}"
+        yield f"limits.{case['via']}.{case['agg']}.k={len(case['inputs'])}"
+
+
+def classify(name, case, res, findings):
+    """D32 (a 64-bit accumulator wraps around silently) and D33 (uint64 next to a signed integer dtype is aggregated in float64):
+    recognised only where the implementation's outcome — refusal, or every stored value — is EXACTLY what the Lean variant oracle
+    (`mergerAsBuiltFrom` / `storeAsBuilt`: the specification with just these two deviations built in) yields, and the deviation
+    that occurred is the finding's (theorems wrap64_eq_iff, rnd_of_fits say where the variant deviates at all)"""
+    if name != "limits" or "impl_outcome" not in res:
+        return None
+    case = _limits_form(case)
+    ins = case["in_dtypes"]
+    b = drv().ask("C07.merge_as_built", inputs=case["inputs"], n=case["n"], mergebuf=case["mergebuf"], agg=case["agg"],
+                  in_types=[_VT[t] for t in ins], out=None if case["out"] is None else _VT[case["out"]])
+    if not b["applicable"] or b["outcome"] != res["impl_outcome"]:
+        return None
+    fid = None
+    if b["float"]:
+        if "uint64" in ins and any(t in _INTS and not t.startswith("u") for t in ins):
+            fid = "D33"
+    elif b["wrap"] and case["agg"] == "sum":
+        fid = "D32"
+    return fid if fid and any(f["id"] == fid for f in findings) else None
 
 
 def _inputs(rng, n, symm, k):
@@ -671,6 +934,7 @@ def cases(tier, rng):
         tot = sum(len(x) for x in ins)
         yield "agg", {"n": n, "inputs": ins, "mergebufs": sorted({1, 2, rng.randint(1, tot + 1), tot + 1}),
                       "agg": ["max", "min", "sum", "first", "last", "count", "range", "twice"][t % 8]}
+    yield from _limit_cases(tier, rng)
     yield from _compat_cases(tier, rng)
 
 
@@ -684,6 +948,15 @@ def shrink(name, case):
         for a in range(len(ins)):
             for k in range(len(ins[a])):
                 c = dict(case); c["inputs"] = [x if t != a else x[:k] + x[k + 1:] for t, x in enumerate(ins)]
+                yield c
+    if name == "limits" and "in_dtypes" in case:
+        ins = case["inputs"]
+        for key in sorted({(p[0], p[1]) for px in ins for p in px}):
+            c = dict(case); c["inputs"] = [[p for p in px if (p[0], p[1]) != key] for px in ins]
+            yield c
+        for a in range(len(ins)):
+            if len(ins) > 1:
+                c = dict(case); c["inputs"] = ins[:a] + ins[a + 1:]; c["in_dtypes"] = case["in_dtypes"][:a] + case["in_dtypes"][a + 1:]
                 yield c
     if name == "compat":
         ls = case["lists"]
